@@ -583,6 +583,42 @@ static void sweep_c19() {
     stats().exhaustive = true;
     stats().extra["isa_max_n"] = maxn;
 }
+// isa_l_rs_vand is not MDS for every shape: search (with the independent GF(2^8) model) for erasure
+// sets within tolerance whose first k surviving rows are singular, and run those
+static void sweep_c19_singular() {
+    if (!isa_available()) return;
+    int shard = (int)opts().shard, ns = (int)opts().nshards, counter = 0;
+    int64_t trials = opts().geti("trials", opts().tier == "thorough" ? 3000 : 300);
+    int found_total = 0;
+    for (int k = 2; k <= 28; k++) for (int m = 4; k + m <= 32; m++) {
+        if ((counter++ % ns) != shard) continue;
+        Config g; g.backend = ref::B_ISA_V; g.k = k; g.m = m; g.hd = m; g.w = 8; g.ct = CT_NONE;
+        int n = k + m, found = 0;
+        uint64_t sd = 1234567 + k * 64 + m + (uint64_t)opts().seed * 7919;
+        auto gen = ref::generator_matrix(g);
+        for (int64_t t = 0; t < trials && found < 3; t++) {
+            std::vector<int> all(n);
+            for (int i = 0; i < n; i++) all[i] = i;
+            int e = 2 + (int)(splitmix64(sd) % (m - 1));
+            for (int i = 0; i < e; i++) std::swap(all[i], all[i + splitmix64(sd) % (n - i)]);
+            std::vector<int> E(all.begin(), all.begin() + e);
+            uint64_t pm = 0;
+            for (int i = 0; i < n; i++) pm |= 1ull << i;
+            for (int x : E) pm &= ~(1ull << x);
+            std::vector<int> rows;
+            for (int i = 0; i < n && (int)rows.size() < k; i++) if (pm >> i & 1) rows.push_back(i);
+            if (ref::rank_of_rows(g, gen, rows) == k) continue;
+            found++; found_total++;
+            Case c = base_case(g, (size_t)k * 2 + 1, 500 + found);
+            present_from_erased(c, n, E);
+            c.set("force", 0); c.set("decode", 1);
+            c.setv("dests", E);
+            c.set("table_mode", 0);
+            sweep_case(c, run_c19);
+        }
+    }
+    stats().extra["sum_singular_first_k_sets_found"] = found_total;
+}
 // injected inversion failure: the public call must fail cleanly, the retry must be exact
 static Result run_c19_inv(const Case &c) {
     Result r;
@@ -654,6 +690,7 @@ int main(int argc, char **argv) {
     h.mode("c05_decode_sweep", sweep_xor_c05, run_c05);
     h.mode("c19", [] { rc_property("C19 ISA-L adapters", gen_c19, run_c19); }, run_c19);
     h.mode("c19_sweep", sweep_c19, run_c19);
+    h.mode("c19_singular", sweep_c19_singular, run_c19);
     h.mode("c19_inv", [] { rc_property("C19 inversion failure", gen_c19_inv, run_c19_inv); }, run_c19_inv);
     h.mode("c20", [] { rc_property("C20 forced checks", gen_c20, run_c20); }, run_c20);
     return harness_main(argc, argv, h);
